@@ -93,7 +93,11 @@ def run(ctx):
     rep.guarded("reach", "adapter::strip", lambda: rule_reach(facts, rep))
     # the never-colour stream's clause: what it delivers is the adapter's output only if the short-write path replays correctly
     from rules import stripstream
-    rep.guarded("W1", "anstream::strip::write", lambda: stripstream.rule_W1_W3(facts, rep))
+    # of the strip stream's short-write rules only W1 (the state replayed matches the bytes reported as consumed) belongs to this
+    # property; the count rules (W3) are C06's
+    import core
+    w1 = core.Filtered(rep, lambda rule, anchor, instance: rule == "W1")
+    rep.guarded("W1", "anstream::strip::write", lambda: stripstream.rule_W1_W3(facts, w1))
     for r, n in (("table", 16), ("keep", 17), ("S1", 7), ("S2", 8), ("S3", 3), ("S4", 3), ("S5", 12), ("reach", 18), ("W1", 4)):
         rep.floor(r, n)
 
